@@ -17,18 +17,18 @@ PROP = dict(
                            "mpt_object_set_string": 10000, "set_string:accepted": 3000, "monitor:string-readbacks-compared": 1000,
                            "mpt_axis_set": 5000, "mpt_line_set": 5000, "mpt_text_set": 5000, "mpt_graph_set": 5000, "mpt_world_set": 5000,
                            "color:wellformed-compared": 1000, "color:refused": 500,
-                           "monitor:read-by-spelling": 100000, "monitor:get-by-prefix": 50000, "monitor:fpoint-grid": 588, "fpoint:accepted": 100, "fpoint:refused": 300}),
+                           "monitor:read-by-spelling": 100000, "monitor:get-by-prefix": 50000, "monitor:fpoint-grid": 588, "fpoint:accepted": 100, "fpoint:refused": 300, "monitor:foreign-source-assignments": 10000, "foreign:refused": 5000}),
               dict(name="c20_cxx", memcheck=500, src=["c20_cxx.cpp"], libs=["mpt++", "mptio", "mptplot", "mptcore"], batch=256, lsan=True,
                    cflags=["-fno-sanitize=vptr"],
                    floors={"object::set": 50000, "set:accepted": 10000, "set:refused": 5000, "monitor:readbacks-compared": 5000,
                            "monitor:copies-compared": 5000, "copy:accepted": 5000, "color:print-parse": 15000, "monitor:properties-compared": 200000,
-                           "monitor:read-by-spelling": 50000, "object::operator[]=": 30000, "assign:routes": 480, "monitor:assignments-compared": 440, "monitor:fpoint-grid": 196}),
+                           "monitor:read-by-spelling": 50000, "object::operator[]=": 30000, "assign:routes": 560, "monitor:assignments-compared": 520, "monitor:fpoint-grid": 196, "object::set(object)": 80, "monitor:foreign-source-assignments": 5000, "foreign:refused": 3000}),
               ],
         rule=("case = (a) one (kind, setter name, value class) triple on a scrambled object: set, reset, unknown name; (b) one PRNG sequence of 5..40 "
               "steps (set with a typed value, reset, copy/clear through \"\" and NULL names, whole-object reset, get by name, unknown names, "
               "mpt_object_set_string) on two objects of one kind; (c) one colour text for mpt_color_parse; non-trivial = always (a, b), documented colour "
               "form (c); distinct = 64-bit hash of the operation list with values"),
-        exhaustive_note="every (object kind, documented setter name, value class) combination: 63 names x 44 classes; C++: every (kind, assignment route, source string mask, target string mask) combination: 5 x 6 x 4 x 4",
+        exhaustive_note="every (object kind, documented setter name, value class) combination: 63 names x 44 classes; C++: every (kind, assignment route, source string mask, target string mask) combination: 5 x 7 x 4 x 4",
         assumptions=SAN_BASE + ["setter names and aliases as spelled in the *_set functions; property list = what *_get enumerates by index",
                                 "a source that answers 0 to a conversion has 'no value': the property takes its default (the convention of all *_set functions)",
                                 "colour texts: eight names (case-insensitive), #rrggbb, #rrggbbaa (color_parse.c, operator<<(ostream, color))"],
